@@ -619,6 +619,12 @@ def run(ctx):
     txqueue.queue_shape(ctx, r13)
     r13.floor(15)
 
+    # ---- R15 transient DB faults are retried, not swallowed ------------------------
+    r15 = ctx.rule('R15', 'no broad exception handler swallows DB errors '
+                   'inside a function decorated with retry_on_db_error',
+                   'GD (handlers)')
+    shared.retry_not_defeated(ctx, r15)
+
     # ---- R14 which commands follow a completed task / a start / a resume -------
     r14 = ctx.rule('R14', 'the controllers turn start, resume and every '
                    'completed task into the prescribed commands (start '
